@@ -26,6 +26,8 @@ type c17CrossCase struct {
 	// mustFail: the operation is reserved to the OTHER chain's own admin (the caller is the
 	// admin of a different appchain): it must be refused outright
 	mustFail bool
+	// setup prepares the world before the call (nil: the base world as it is)
+	setup func(w *fix.World)
 }
 
 func c17CrossCases() []c17CrossCase {
@@ -39,18 +41,18 @@ func c17CrossCases() []c17CrossCase {
 	}
 	ka := fix.Addr(fix.KA).String()
 	out := []c17CrossCase{
-		{"chain A's admin adds chain B's admin to A's admin list", fix.KA, upd(ka + "," + fix.Addr(fix.KB).String()), []string{kb, strings.ToLower(fix.ChainB)}, false},
-		{"chain A's admin adds a governance admin to A's admin list", fix.KA, upd(ka + "," + fix.Addr(fix.AdminKeys[1]).String()), []string{adm}, false},
-		{"chain A's admin replaces itself by chain B's admin", fix.KA, upd(fix.Addr(fix.KB).String()), []string{kb, strings.ToLower(fix.ChainB)}, false},
-		{"chain A's admin adds a fresh account (control: allowed)", fix.KA, upd(ka + "," + fresh), []string{kb, strings.ToLower(fix.ChainB), adm}, false},
+		{"chain A's admin adds chain B's admin to A's admin list", fix.KA, upd(ka + "," + fix.Addr(fix.KB).String()), []string{kb, strings.ToLower(fix.ChainB)}, false, nil},
+		{"chain A's admin adds a governance admin to A's admin list", fix.KA, upd(ka + "," + fix.Addr(fix.AdminKeys[1]).String()), []string{adm}, false, nil},
+		{"chain A's admin replaces itself by chain B's admin", fix.KA, upd(fix.Addr(fix.KB).String()), []string{kb, strings.ToLower(fix.ChainB)}, false, nil},
+		{"chain A's admin adds a fresh account (control: allowed)", fix.KA, upd(ka + "," + fresh), []string{kb, strings.ToLower(fix.ChainB), adm}, false, nil},
 		{"an unregistered chain registers naming chain B's admin as its admin", fix.KC, func(w *fix.World) *pb.BxhTransaction {
 			return w.InvokeTx(fix.KC, constant.AppchainMgrContractAddr, "RegisterAppchain",
 				pb.String(fix.ChainC), pb.String("name-"+fix.ChainC), pb.Bytes([]byte("")), pb.String("ETH"), pb.Bytes(nil),
 				pb.String("broker"), pb.String("desc"), pb.String("0x00000000000000000000000000000000000000a2"), pb.String("url"), pb.String(fix.Addr(fix.KC).String()+","+fix.Addr(fix.KB).String()), pb.String("reason"))
-		}, []string{kb, strings.ToLower(fix.ChainB)}, false},
+		}, []string{kb, strings.ToLower(fix.ChainB)}, false, nil},
 		{"chain B's admin registers a service of chain A", fix.KB, func(w *fix.World) *pb.BxhTransaction {
 			return w.RegisterServiceTx(fix.KB, fix.ChainA, "0xB2dD6977169c5067d3729E3deB9a82c3e7502BF9", "")
-		}, []string{strings.ToLower(fix.Addr(fix.KA).String()), strings.ToLower(fix.ChainA)}, true},
+		}, []string{strings.ToLower(fix.Addr(fix.KA).String()), strings.ToLower(fix.ChainA)}, true, nil},
 	}
 	// operations reserved to a chain's own admin, tried by the admin of the other chain, in
 	// BOTH directions (chain A was registered before chain B)
@@ -60,15 +62,18 @@ func c17CrossCases() []c17CrossCase {
 		chain  string
 		svc    string
 		victim crypto.PrivateKey
+		setup  func(w *fix.World)
 	}
 	for _, o := range []other{
-		{"chain A's admin (registered first)", fix.KA, fix.ChainB, fix.Svc2, fix.KB},
-		{"chain B's admin (registered later)", fix.KB, fix.ChainA, fix.Svc1, fix.KA},
+		{"chain A's admin (registered first)", fix.KA, fix.ChainB, fix.Svc2, fix.KB, nil},
+		{"chain B's admin (registered later)", fix.KB, fix.ChainA, fix.Svc1, fix.KA, nil},
+		// an appchain whose id extends chain A's id by the separator used in service ids
+		{"chain A's admin", fix.KA, c17SubChain, fix.Svc1, fix.KC, c17SetupSubChain},
 	} {
 		o := o
 		foreign := []string{strings.ToLower(fix.Addr(o.victim).String()), strings.ToLower(o.chain)}
 		add := func(what string, mk func(w *fix.World) *pb.BxhTransaction) {
-			out = append(out, c17CrossCase{o.who + " " + what + " of " + o.chain, o.key, mk, foreign, true})
+			out = append(out, c17CrossCase{o.who + " " + what + " of " + o.chain, o.key, mk, foreign, true, o.setup})
 		}
 		add("registers a service", func(w *fix.World) *pb.BxhTransaction {
 			return w.RegisterServiceTx(o.key, o.chain, "0xB2dD6977169c5067d3729E3deB9a82c3e7502BFa", "")
@@ -95,10 +100,24 @@ func c17CrossCases() []c17CrossCase {
 	return out
 }
 
+// c17SubChain: a second appchain, owned by another account, whose id is chain A's id followed
+// by ":" and a suffix (service ids are "<chain id>:<service id>").
+var c17SubChain = fix.ChainA + ":sub"
+
+func c17SetupSubChain(w *fix.World) {
+	res := w.Must(w.Block(w.RegisterAppchainTx(fix.KC, c17SubChain, "0x00000000000000000000000000000000000000a2", nil, "ETH")))
+	w.Approve(fix.ProposalID(res.Receipts[0]))
+	res = w.Must(w.Block(w.RegisterServiceTx(fix.KC, c17SubChain, fix.Svc1, "")))
+	w.Approve(fix.ProposalID(res.Receipts[0]))
+}
+
 func c17Cross(c *mc.Ctx) {
 	for _, audit := range []bool{false, true} {
 		for _, k := range c17CrossCases() {
 			w := fix.BaseWorld(fix.Options{Audit: audit})
+			if k.setup != nil {
+				k.setup(w)
+			}
 			name := fmt.Sprintf("%s [audit %v]", k.name, audit)
 			rep := map[string]interface{}{"engine": "c17.cross", "case": k.name, "audit": audit}
 			before := w.R.StateDump()
